@@ -5,5 +5,6 @@ CONSTANTS
   PagesDual = {1252, 1251, 932, 936}
   Rich = TRUE
   Sweep = TRUE
+  AsWas = FALSE
 INVARIANTS Refines
 CHECK_DEADLOCK FALSE
